@@ -60,6 +60,19 @@ Theorem C03_fuel_linear : forall e n sid vs, tfin n e (TStruct sid) = true -> ha
   (3 + need_list vs <= tneed n e (TStruct sid) + 2 * length (encode e sid (VStruct vs)))%nat.
 Proof. exact RoundTripProofs.need_top. Qed.
 
+(* The first clause with NO side condition on the schema's size, kept visible. It is not a theorem of the MODEL: the
+   model's fuel is 4*len+64, and a struct type with more members than that constant allows exhausts it (witness
+   below: 41 members, three levels). This limits the model, not the code - the generated Go decoder has no fuel;
+   the theorems above cover every struct type with tneed + k <= 64 (the regenerated schemas need at most 44 + 2)
+   and, with the explicit fuel hypothesis, every value of every struct type. *)
+Definition C03_roundtrip_statement : Prop :=
+  forall e k sid vs, wf_schema k e -> has_type e (TStruct sid) (VStruct vs) ->
+  decode e sid (encode e sid (VStruct vs)) = DOk (norm_struct e sid (VStruct vs)) [].
+Theorem C03_model_fuel_limit :
+  wf_schema_b 2 wide_schema = true /\ has_type_b 20 wide_schema (TStruct 0) (wide_deep 3) = true /\
+  decode wide_schema 0 (encode wide_schema 0 (wide_deep 3)) = DFuel.
+Proof. exact RoundTripExamples.model_fuel_limit. Qed.
+
 (* instantiated on the schemas regenerated from the tree: they satisfy wf_schema, and every well-typed value
    of every generated struct type with a finite type graph (all but the recursive test struct) round-trips *)
 Theorem C03_code_schemas_wf : wf_schema 2 env0.
@@ -116,6 +129,7 @@ Print Assumptions C03_code_schemas_roundtrip_equal.
 Print Assumptions C03_roundtrip_static.
 Print Assumptions C03_roundtrip_into.
 Print Assumptions C03_fuel_linear.
+Print Assumptions C03_model_fuel_limit.
 Print Assumptions C03_code_schemas_wf.
 Print Assumptions C03_code_schemas_roundtrip.
 Print Assumptions C03_code_schemas_finite.
